@@ -628,7 +628,7 @@ def rule_bracket(ctx, rep, rid="R-C02-bracket"):
 
 
 def run(ctx, rep):
-    rep.not_decided += ["that each rule's predicate is the documented one (value-level)", "acceptance of all valid programs",
+    rep.not_decided += ["that each rule's predicate is the documented one (value-level; decided only for the subrange comparison, R-C02-order)", "acceptance of all valid programs",
                         "single/double-fault behaviour on generated programs"]
     rep.assumptions += ["derive(Recurse) output is what rustc compiled (traversal edges are read from MIR, not from the macro source)",
                         "rule->code table reflects the module docs and docs/compiler/problems"]
@@ -639,3 +639,9 @@ def run(ctx, rep):
     rule_propagate(ctx, rep)
     rule_stackend(ctx, rep)
     rule_bracket(ctx, rep)
+    from rules import c02_earlyok, c02_order
+    c02_earlyok.run(ctx, rep)
+    c02_order.run(ctx, rep)
+    # the re-assembly after the sort hands every declaration on (a dropped POU takes its violations with it)
+    from rules.c03 import rule_merge
+    rule_merge(ctx, rep, rid="R-C02-merge")
